@@ -57,3 +57,5 @@ def run(ctx):
     except ImportError:
         pass
     ctx.not_decided("centre kept, circular case sound, tightness (float geometry of the ellipse/cell overlap test)")
+    from rules import controls
+    controls.guard_controls(ctx)
